@@ -86,25 +86,29 @@ Definition resend_collided (s : state) (p : publish) : R (option packet) :=
   let s := push_event s (EvOut (OPublish (p_pkid p))) in
   Ok (set_cpc s 0, Some (PPublish p)).
 
+(** [outgoing_publish], second half: the collision test and the bookkeeping, once the publish
+    carries its id *)
+Definition place_publish (s : state) (p : publish) : R (option packet) :=
+  let pkid := p_pkid p in
+  match vget (outgoing_pub s) pkid with
+  | None => Err (s, EUnsolicited pkid)
+  | Some slot =>
+      if is_some slot || bit (outgoing_rel s) pkid
+      then Ok (push_event (set_collision s (Some p)) (EvOut (OAwaitAck pkid)), None)
+      else
+        do (s, _) <- pub_store s pkid (Some p);
+        do (s, _) <- inflight_inc s;
+        Ok (push_event s (EvOut (OPublish pkid)), Some (PPublish p))
+  end.
+
 (** [outgoing_publish] *)
 Definition outgoing_publish (s : state) (p : publish) : R (option packet) :=
   match p_qos p with
   | Q0 => Ok (push_event s (EvOut (OPublish (p_pkid p))), Some (PPublish p))
   | _ =>
-      do (s, p) <- (if p_pkid p =? 0
-                    then do (s, id) <- next_pkid s; Ok (s, with_pkid p id)
-                    else Ok (s, p));
-      let pkid := p_pkid p in
-      match vget (outgoing_pub s) pkid with
-      | None => Err (s, EUnsolicited pkid)
-      | Some slot =>
-          if is_some slot || bit (outgoing_rel s) pkid
-          then Ok (push_event (set_collision s (Some p)) (EvOut (OAwaitAck pkid)), None)
-          else
-            do (s, _) <- pub_store s pkid (Some p);
-            do (s, _) <- inflight_inc s;
-            Ok (push_event s (EvOut (OPublish pkid)), Some (PPublish p))
-      end
+      if p_pkid p =? 0
+      then do (s, id) <- next_pkid s; place_publish s (with_pkid p id)
+      else place_publish s p
   end.
 
 (** [save_pubrel] + [outgoing_pubrel] *)
@@ -252,14 +256,14 @@ Definition clean (s : state) : Outcome (state * error) (state * list request) :=
     Ok (s, pubs ++ rels ++ parked).
 
 (** ---- the state machine the drivers step: one op = one public API call *)
-Inductive op := Out (r : request) | In (p : packet) | Clean.
+Inductive op := Out (r : request) | Inc (p : packet) | Clean.
 
 Inductive reply := Wrote (p : option packet) | Cleaned (l : list request).
 
 Definition step (s : state) (o : op) : R reply :=
   match o with
   | Out r => do (s, p) <- handle_outgoing_packet s r; Ok (s, Wrote p)
-  | In pk => do (s, p) <- handle_incoming_packet s pk; Ok (s, Wrote p)
+  | Inc pk => do (s, p) <- handle_incoming_packet s pk; Ok (s, Wrote p)
   | Clean => do (s, l) <- clean s; Ok (s, Cleaned l)
   end.
 
